@@ -116,6 +116,11 @@ func New(l *lexer.Lexer, options ...Option) *Parser {
 	for _, opt := range options {
 		opt(p)
 	}
+	if p.filename != "" {
+		// The lexer needs the file name before the first tokens are read
+		// below: an error in them is reported with it.
+		l.SetFilename(p.filename)
+	}
 
 	// Prime the token pump
 	p.nextToken() // makes curToken=<empty>, peekToken=token[0]
